@@ -23,12 +23,13 @@ TxUDef == <<
   Tx(<<In(7,1)>>, <<Out(99000)>>),                         \*  9: its child that leaves the dust unspent
   Tx(<<In(2,1)>>, <<Out(97000)>>),                         \* 10: grandchild
   Tx(<<In(0,2)>>, <<Out(99000), A(239)>>),                 \* 11: anchor of 239 sat is dust; pays 761
-  Tx(<<In(0,2)>>, <<Out(99000), A(240)>>)                  \* 12: anchor of 240 sat is not dust; pays 760
+  Tx(<<In(0,2)>>, <<Out(99000), A(240)>>),                 \* 12: anchor of 240 sat is not dust; pays 760
+  Tx(<<In(6,1), In(6,2), In(6,3)>>, <<Out(97000)>>)        \* 13: child of the two-dust parent spending everything, fee 3000
 >>
 BaseDef == << [v |-> 100000, h |-> 1], [v |-> 100000, h |-> 2], [v |-> 100000, h |-> 3], [v |-> 100000, h |-> 4] >>
 H0Def == 110
 BaseDtDef == 1
-AllTx == 1..12
+AllTx == 1..13
 SubQ == {1, 2, 3, 4, 5, 6, 11, 12}
 NoTx == {}
 NoLists == {}
@@ -38,8 +39,8 @@ NoPrio == {}
 PrioDef == {<<7, 100>>, <<7, -100>>, <<1, 50>>}
 ListsQ == { <<1>> }
 ListsT == { <<1>>, <<1, 2>>, <<7>> }
-PkgsQ == { <<1, 2>>, <<1, 3>>, <<1, 4>> }
-PkgsT == { <<1, 2>>, <<1, 3>>, <<1, 4>>, <<7, 8>>, <<7, 9>>, <<5, 2>>, <<1, 2, 10>>, <<6>>, <<1>> }
+PkgsQ == { <<1, 2>>, <<1, 3>>, <<1, 4>>, <<6, 13>> }
+PkgsT == { <<1, 2>>, <<1, 3>>, <<1, 4>>, <<7, 8>>, <<7, 9>>, <<5, 2>>, <<1, 2, 10>>, <<6>>, <<1>>, <<6, 13>> }
 ExtQ == [ExtStd EXCEPT !.pkgs = PkgsQ, !.maxpkg = 1]
 ExtT == [ExtStd EXCEPT !.pkgs = PkgsT, !.maxpkg = 2]
 ====
